@@ -274,6 +274,15 @@ fn signed_case() -> BoxedStrategy<Case> {
         4 => Just(None),
         2 => Just(Some(json!({"jwk": HolderKey::Ec.jwk_value().unwrap()}))),
         1 => Just(Some(json!({"jwk": HolderKey::Ed.jwk_value().unwrap()}))),
+        // a valid key with the optional JWK members set to every value the JWK grammar knows
+        3 => (select(&["HS256", "HS384", "HS512", "ES256", "ES384", "RS256", "RS384", "RS512", "PS256", "PS384", "PS512", "EdDSA", "RSA1_5", "RSA-OAEP", "RSA-OAEP-256", "XX", ""][..]),
+              select(&["sig", "enc", "x"][..]), any::<bool>(), any::<bool>())
+            .prop_map(|(alg, usage, with_use, ed)| {
+                let mut j = if ed { HolderKey::Ed.jwk_value().unwrap() } else { HolderKey::Ec.jwk_value().unwrap() };
+                j["alg"] = json!(alg);
+                if with_use { j["use"] = json!(usage); j["key_ops"] = json!(["verify", "sign"]); j["kid"] = json!("k1"); }
+                Some(json!({"jwk": j}))
+            }),
         1 => Just(Some(json!({"jwk": 5}))),
         1 => Just(Some(json!({"jwk": {}}))),
         1 => Just(Some(json!({"jwk": {"kty": "EC"}}))),
